@@ -24,15 +24,15 @@ Lemma reads_rmany_signed n : 1 <= n -> forall xs,
   reads (rmany (length xs) (rsigned n)) (flat_map (twoc_bits n) xs) xs.
 Proof.
   intros Hn. induction xs as [|x t IH]; intros Hok rd0 rest Hwf Hb.
-  - exists rd0. cbn [length rmany flat_map app] in *. repeat split; try assumption; try apply Hwf; [lia | exists 0%nat; reflexivity].
+  - exists rd0. cbn [length rmany flat_map app] in *. fin5 Hwf; [lia | apply rd_adv_refl].
   - cbn [forallb] in Hok. apply Bool.andb_true_iff in Hok. destruct Hok as [Hx Ht].
     cbn [flat_map] in Hb. rewrite <- app_assoc in Hb.
-    destruct (reads_rsigned n x Hn (sample_ok_range n x Hx) rd0 _ Hwf Hb) as (r1 & E1 & Hb1 & Hwf1 & Hp1 & (k1 & Hk1)).
-    destruct (IH Ht r1 rest Hwf1 Hb1) as (r2 & E2 & Hb2 & Hwf2 & Hp2 & (k2 & Hk2)).
+    destruct (reads_rsigned n x Hn (sample_ok_range n x Hx) rd0 _ Hwf Hb) as (r1 & E1 & Hb1 & Hwf1 & Hp1 & Hk1).
+    destruct (IH Ht r1 rest Hwf1 Hb1) as (r2 & E2 & Hb2 & Hwf2 & Hp2 & Hk2).
     exists r2. cbn [length rmany]. rewrite E1, E2.
-    repeat split; try assumption; try apply Hwf2.
+    fin5 Hwf2.
     + rewrite Hp2, Hp1. cbn [flat_map]. rewrite app_length, Nat2N.inj_add. unfold twoc_bits. lia.
-    + exists (k1 + k2)%nat. rewrite Hk2, Hk1. apply skipn_skipn'.
+    + exact (rd_adv_trans _ _ _ Hk1 Hk2).
 Qed.
 
 (* ---- subframe bits ---- *)
@@ -80,16 +80,16 @@ Qed.
 Lemma reads_header tag7 : tag7 < 128 ->
   forall rd0 rest, rd_wf rd0 -> rd_bits rd0 = header_bits tag7 ++ rest ->
   exists r1 r2, rbits 7 rd0 = Some (tag7, r1) /\ rbits 1 r1 = Some (0, r2) /\ rd_bits r2 = rest /\ rd_wf r2
-                /\ rd_pos r2 = rd_pos rd0 + 8 /\ (exists k, r_bytes r2 = skipn k (r_bytes rd0)).
+                /\ rd_pos r2 = rd_pos rd0 + 8 /\ rd_adv rd0 r2.
 Proof.
   intros Ht rd0 rest Hwf Hb. unfold header_bits in Hb. rewrite <- app_assoc in Hb.
-  destruct (reads_rbits 7 tag7 ltac:(change (2 ^ 7) with 128; exact Ht) rd0 _ Hwf Hb) as (r1 & E1 & Hb1 & Hwf1 & Hp1 & (k1 & Hk1)).
+  destruct (reads_rbits 7 tag7 ltac:(change (2 ^ 7) with 128; exact Ht) rd0 _ Hwf Hb) as (r1 & E1 & Hb1 & Hwf1 & Hp1 & Hk1).
   change [false] with (bits_msb (N.to_nat 1) 0) in Hb1.
-  destruct (reads_rbits 1 0 ltac:(reflexivity) r1 _ Hwf1 Hb1) as (r2 & E2 & Hb2 & Hwf2 & Hp2 & (k2 & Hk2)).
+  destruct (reads_rbits 1 0 ltac:(reflexivity) r1 _ Hwf1 Hb1) as (r2 & E2 & Hb2 & Hwf2 & Hp2 & Hk2).
   exists r1, r2. rewrite bits_msb_length in Hp1, Hp2.
-  repeat split; try assumption; try apply Hwf2.
+  split; [exact E1|]. split; [exact E2|]. split; [exact Hb2|]. split; [exact Hwf2|]. split.
   - rewrite Hp2, Hp1. change (N.to_nat 7) with 7%nat. change (N.to_nat 1) with 1%nat. lia.
-  - exists (k1 + k2)%nat. rewrite Hk2, Hk1. apply skipn_skipn'.
+  - exact (rd_adv_trans _ _ _ Hk1 Hk2).
 Qed.
 
 Definition sub_quot_u32 (s : subframe) : Prop :=
@@ -110,30 +110,30 @@ Proof.
   - (* constant *)
     rewrite !Bool.andb_true_iff in Hv. destruct Hv as ((Hblk & Hbps) & Hdc). pose proof (bps_ok_range _ Hbps) as Hr.
     rewrite <- app_assoc in Hb.
-    destruct (reads_header 0 ltac:(lia) rd0 _ Hwf Hb) as (r1 & r2 & E1 & E2 & Hb2 & Hwf2 & Hp2 & (k2 & Hk2)).
-    destruct (reads_rsigned bps dc ltac:(lia) (sample_ok_range _ _ Hdc) r2 rest Hwf2 Hb2) as (r3 & E3 & Hb3 & Hwf3 & Hp3 & (k3 & Hk3)).
+    destruct (reads_header 0 ltac:(lia) rd0 _ Hwf Hb) as (r1 & r2 & E1 & E2 & Hb2 & Hwf2 & Hp2 & Hk2).
+    destruct (reads_rsigned bps dc ltac:(lia) (sample_ok_range _ _ Hdc) r2 rest Hwf2 Hb2) as (r3 & E3 & Hb3 & Hwf3 & Hp3 & Hk3).
     exists r3. unfold p_subframe. rewrite E1, E2. cbn [N.eqb negb]. rewrite E3.
     split; [reflexivity|]. split; [exact Hb3|]. split; [exact Hwf3|]. split.
     + rewrite Hp3, Hp2, app_length. unfold header_bits, twoc_bits. rewrite app_length, !bits_msb_length. cbn [length]. lia.
-    + exists (k2 + k3)%nat. rewrite Hk3, Hk2. apply skipn_skipn'.
+    + exact (rd_adv_trans _ _ _ Hk2 Hk3).
   - (* verbatim *)
     rewrite !Bool.andb_true_iff in Hv. destruct Hv as ((Hblk & Hbps) & Hxs). pose proof (bps_ok_range _ Hbps) as Hr.
     rewrite <- app_assoc in Hb.
-    destruct (reads_header 1 ltac:(lia) rd0 _ Hwf Hb) as (r1 & r2 & E1 & E2 & Hb2 & Hwf2 & Hp2 & (k2 & Hk2)).
-    destruct (reads_rmany_signed bps ltac:(lia) xs Hxs r2 rest Hwf2 Hb2) as (r3 & E3 & Hb3 & Hwf3 & Hp3 & (k3 & Hk3)).
+    destruct (reads_header 1 ltac:(lia) rd0 _ Hwf Hb) as (r1 & r2 & E1 & E2 & Hb2 & Hwf2 & Hp2 & Hk2).
+    destruct (reads_rmany_signed bps ltac:(lia) xs Hxs r2 rest Hwf2 Hb2) as (r3 & E3 & Hb3 & Hwf3 & Hp3 & Hk3).
     exists r3. unfold p_subframe. rewrite E1, E2. cbn [N.eqb Pos.eqb negb N.leb N.compare Pos.compare Pos.compare_cont andb N.ltb].
     rewrite Nat2N.id, E3.
     split; [reflexivity|]. split; [exact Hb3|]. split; [exact Hwf3|]. split.
     + rewrite Hp3, Hp2, app_length. unfold header_bits. rewrite app_length, !bits_msb_length. cbn [length]. lia.
-    + exists (k2 + k3)%nat. rewrite Hk3, Hk2. apply skipn_skipn'.
+    + exact (rd_adv_trans _ _ _ Hk2 Hk3).
   - (* fixed *)
     rewrite !Bool.andb_true_iff in Hv. destruct Hv as (((Hbps & Hwm) & Hwl) & Hres). pose proof (bps_ok_range _ Hbps) as Hr.
     apply N.eqb_eq in Hwl.
     set (order := N.of_nat (length warm)) in *. assert (Ho : order <= 4) by (unfold order; lia).
     rewrite <- !app_assoc in Hb.
-    destruct (reads_header (8 + order) ltac:(lia) rd0 _ Hwf Hb) as (r1 & r2 & E1 & E2 & Hb2 & Hwf2 & Hp2 & (k2 & Hk2)).
-    destruct (reads_rmany_signed bps ltac:(lia) warm Hwm r2 _ Hwf2 Hb2) as (r3 & E3 & Hb3 & Hwf3 & Hp3 & (k3 & Hk3)).
-    pose proof (reads_residual res Hres Hq r3 rest Hwf3 Hb3) as (r4 & E4 & Hb4 & Hwf4 & Hp4 & (k4 & Hk4)).
+    destruct (reads_header (8 + order) ltac:(lia) rd0 _ Hwf Hb) as (r1 & r2 & E1 & E2 & Hb2 & Hwf2 & Hp2 & Hk2).
+    destruct (reads_rmany_signed bps ltac:(lia) warm Hwm r2 _ Hwf2 Hb2) as (r3 & E3 & Hb3 & Hwf3 & Hp3 & Hk3).
+    pose proof (reads_residual res Hres Hq r3 rest Hwf3 Hb3) as (r4 & E4 & Hb4 & Hwf4 & Hp4 & Hk4).
     exists r4. unfold p_subframe. rewrite E1, E2. cbn [N.eqb negb].
     destruct (N.eqb_spec (8 + order) 0) as [?|_]; [lia|].
     destruct (N.leb_spec 8 (8 + order)) as [_|?]; [|lia].
@@ -142,19 +142,19 @@ Proof.
     rewrite Hwl in E4. rewrite E4.
     split; [reflexivity|]. split; [exact Hb4|]. split; [exact Hwf4|]. split.
     + rewrite Hp4, Hp3, Hp2, !app_length. unfold header_bits. rewrite app_length, !bits_msb_length. cbn [length]. lia.
-    + exists (k2 + (k3 + k4))%nat. rewrite Hk4, Hk3, Hk2, !skipn_skipn'. reflexivity.
+    + exact (rd_adv_trans _ _ _ Hk2 (rd_adv_trans _ _ _ Hk3 Hk4)).
   - (* lpc *)
     rewrite !Bool.andb_true_iff in Hv. destruct Hv as (((((Hqv & Ho1) & Hwl) & Hbps) & Hwm) & Hres).
     pose proof (bps_ok_range _ Hbps) as Hr. apply N.eqb_eq in Hwl. apply N.leb_le in Ho1.
     destruct (verify_qparams_facts q Hqv) as (Ho & Hs & Hp & Hc). unfold q_order in Ho. rewrite Ht in Ho.
     set (order := N.of_nat (length warm)) in *.
     rewrite <- !app_assoc in Hb.
-    destruct (reads_header (32 + (order - 1)) ltac:(lia) rd0 _ Hwf Hb) as (r1 & r2 & E1 & E2 & Hb2 & Hwf2 & Hp2 & (k2 & Hk2)).
-    destruct (reads_rmany_signed bps ltac:(lia) warm Hwm r2 _ Hwf2 Hb2) as (r3 & E3 & Hb3 & Hwf3 & Hp3 & (k3 & Hk3)).
-    destruct (reads_rbits 4 (q_precision q - 1) ltac:(change (2 ^ 4) with 16; lia) r3 _ Hwf3 Hb3) as (r4 & E4 & Hb4 & Hwf4 & Hp4 & (k4 & Hk4)).
-    destruct (reads_rsigned 5 (q_shift q) ltac:(lia) ltac:(cbn; lia) r4 _ Hwf4 Hb4) as (r5 & E5 & Hb5 & Hwf5 & Hp5 & (k5 & Hk5)).
-    destruct (reads_rmany_signed (q_precision q) ltac:(lia) (q_coefs q) Hc r5 _ Hwf5 Hb5) as (r6 & E6 & Hb6 & Hwf6 & Hp6 & (k6 & Hk6)).
-    pose proof (reads_residual res Hres Hq r6 rest Hwf6 Hb6) as (r7 & E7 & Hb7 & Hwf7 & Hp7 & (k7 & Hk7)).
+    destruct (reads_header (32 + (order - 1)) ltac:(lia) rd0 _ Hwf Hb) as (r1 & r2 & E1 & E2 & Hb2 & Hwf2 & Hp2 & Hk2).
+    destruct (reads_rmany_signed bps ltac:(lia) warm Hwm r2 _ Hwf2 Hb2) as (r3 & E3 & Hb3 & Hwf3 & Hp3 & Hk3).
+    destruct (reads_rbits 4 (q_precision q - 1) ltac:(change (2 ^ 4) with 16; lia) r3 _ Hwf3 Hb3) as (r4 & E4 & Hb4 & Hwf4 & Hp4 & Hk4).
+    destruct (reads_rsigned 5 (q_shift q) ltac:(lia) ltac:(cbn; lia) r4 _ Hwf4 Hb4) as (r5 & E5 & Hb5 & Hwf5 & Hp5 & Hk5).
+    destruct (reads_rmany_signed (q_precision q) ltac:(lia) (q_coefs q) Hc r5 _ Hwf5 Hb5) as (r6 & E6 & Hb6 & Hwf6 & Hp6 & Hk6).
+    pose proof (reads_residual res Hres Hq r6 rest Hwf6 Hb6) as (r7 & E7 & Hb7 & Hwf7 & Hp7 & Hk7).
     exists r7. unfold p_subframe. rewrite E1, E2. cbn [N.eqb negb].
     destruct (N.eqb_spec (32 + (order - 1)) 0) as [?|_]; [lia|].
     destruct (N.leb_spec 8 (32 + (order - 1))) as [_|?]; [|lia].
@@ -172,7 +172,7 @@ Proof.
     split; [reflexivity|]. split; [exact Hb7|]. split; [exact Hwf7|]. split.
     + rewrite Hp7, Hp6, Hp5, Hp4, Hp3, Hp2, !app_length. unfold header_bits, twoc_bits.
       rewrite app_length, !bits_msb_length. cbn [length]. lia.
-    + exists (k2 + (k3 + (k4 + (k5 + (k6 + k7)))))%nat. rewrite Hk7, Hk6, Hk5, Hk4, Hk3, Hk2, !skipn_skipn'. reflexivity.
+    + exact (rd_adv_trans _ _ _ Hk2 (rd_adv_trans _ _ _ Hk3 (rd_adv_trans _ _ _ Hk4 (rd_adv_trans _ _ _ Hk5 (rd_adv_trans _ _ _ Hk6 Hk7))))).
 Qed.
 
 (* ---- byte level: what the byte sink exports parses back ---- *)
